@@ -687,6 +687,27 @@ pub assume_specification [u64::pow] (b: u64, e: u32) -> (ret: u64)
 pub assume_specification [u32::pow] (b: u32, e: u32) -> (ret: u32)
     requires vstd::arithmetic::power::pow(b as int, e as nat) <= u32::MAX
     ensures ret == vstd::arithmetic::power::pow(b as int, e as nat);
+pub assume_specification [u8::pow] (b: u8, e: u32) -> (ret: u8)
+    requires vstd::arithmetic::power::pow(b as int, e as nat) <= u8::MAX
+    ensures ret == vstd::arithmetic::power::pow(b as int, e as nat);
+pub assume_specification [u16::pow] (b: u16, e: u32) -> (ret: u16)
+    requires vstd::arithmetic::power::pow(b as int, e as nat) <= u16::MAX
+    ensures ret == vstd::arithmetic::power::pow(b as int, e as nat);
+pub assume_specification [u128::pow] (b: u128, e: u32) -> (ret: u128)
+    requires vstd::arithmetic::power::pow(b as int, e as nat) <= u128::MAX
+    ensures ret == vstd::arithmetic::power::pow(b as int, e as nat);
+pub assume_specification [usize::pow] (b: usize, e: u32) -> (ret: usize)
+    requires vstd::arithmetic::power::pow(b as int, e as nat) <= usize::MAX
+    ensures ret == vstd::arithmetic::power::pow(b as int, e as nat);
+pub assume_specification [i32::pow] (b: i32, e: u32) -> (ret: i32)
+    requires i32::MIN <= vstd::arithmetic::power::pow(b as int, e as nat) <= i32::MAX
+    ensures ret == vstd::arithmetic::power::pow(b as int, e as nat);
+pub assume_specification [i64::pow] (b: i64, e: u32) -> (ret: i64)
+    requires i64::MIN <= vstd::arithmetic::power::pow(b as int, e as nat) <= i64::MAX
+    ensures ret == vstd::arithmetic::power::pow(b as int, e as nat);
+pub assume_specification [i128::pow] (b: i128, e: u32) -> (ret: i128)
+    requires i128::MIN <= vstd::arithmetic::power::pow(b as int, e as nat) <= i128::MAX
+    ensures ret == vstd::arithmetic::power::pow(b as int, e as nat);
 
 // core::num::NonZeroU64 / NonZeroU8 / NonZeroUsize stand-ins (core's NonZero<T> is generic over an unstable
 // trait and cannot be given an external type specification); same method names, assumed semantics
